@@ -295,6 +295,22 @@ def gen_lifecycle(rng, idx):
     if r.random() < 0.2: s.add(op="set", auto_shutdown=0)
     for _ in range(r.randrange(0, 9)):
         env_noise(s, pfault=0.08)
+    if r.random() < 0.15 and pre < 0.9:
+        # a stream shutdown (broker DISCONNECT) is under way, and within the next few handlers the SAME service object is
+        # cancelled through a per-operation terminal cancellation; then the client is run again and loses its connection
+        s.quiesce(ms=30000)
+        if s.held: s.add(op="unhold"); s.held = False
+        s.add(op="bdisc", rc=r.choice([0x8b, 0x98]), nr=1)
+        s.add(op="step", k=r.choice([1, 2, 3, 4, 5, 6, 8]))
+        s.add(op="cancel_op", id=1 if pre >= 0.3 else 3, type="terminal", now=r.choice([0, 1]))
+        s.add(op="drain")
+        s.run(); i = s.pub(1)
+        s.add(op="advance", ms=1)
+        fault_step(s)
+        s.pub(1)
+        s.quiesce()
+        s.add(op="cancel_all"); s.add(op="drain")
+        return s.out()
     # the terminal event, possibly with the preceding step left un-settled, possibly made AHEAD of queued handlers
     now = {}
     k = r.random()
@@ -367,7 +383,8 @@ def gen_connect(rng, idx):
 def gen_caps(rng, idx):
     s = Sc(rng, "caps-%d" % idx)
     r = rng
-    s.cfg(hosts=1, ka=0)
+    if r.random() < 0.3: s.cfg(hosts=1, ka=0, auth=dict(method="am%d" % (idx % 2), rounds=r.choice([0, 1, 2])))
+    else: s.cfg(hosts=1, ka=0)
     props = []
     mq = r.choice([None, 0, 1, 2])
     if mq is not None: props.append([36, mq])
@@ -618,6 +635,21 @@ def gen_misbehave(rng, idx):
     r = rng
     s.cfg(hosts=2, ka=0, tseed=r.randrange(1, 1 << 30))
     s.run()
+    if r.random() < 0.25:
+        # a well-formed but unsolicited (duplicate) acknowledgement arrives while nothing is being written; the next
+        # request of that kind is given the same packet identifier and must NOT be completed by the stale packet
+        import mqttenc as E
+        unsub = r.random() < 0.4
+        s.sub(unsub=unsub, n=1)                                   # request A: identifier 1, acknowledged at once
+        stale = E.suback(11 if unsub else 9, 1, [r.choice([0, 17] if unsub else [0, 1, 2])])
+        s.add(op="bbytes", hex=stale.hex())
+        s.add(op="hold", kinds=["SUBACK", "UNSUBACK"])
+        s.sub(unsub=unsub, n=1)                                   # request B: identifier 1 again
+        s.add(op="advance", ms=1)
+        s.add(op="ack", i=0, codes=[135] if not unsub else [135])  # the broker's real verdict: not authorized
+        s.add(op="unhold")
+        s.quiesce()
+        return s.out()
     s.add(op="hold", kinds=["SUBACK", "UNSUBACK"])
     unsub = r.random() < 0.4
     n = r.choice([1, 2, 3, 4])
